@@ -217,6 +217,12 @@ DOC_ROWS = [
     ("my-label", "std:label", -1, "index.html#my-label", "My Label Title"),
     ("other", "std:label", -1, "o.html#other", "Other"),
     ("index", "std:doc", -1, "index.html", "Index Doc"),
+    # the same object recorded under several object types / names, all at ONE location: still several matches
+    ("pkg.Thing", "py:class", 1, "api.html#$", "-"),
+    ("pkg.Thing", "py:exception", 1, "api.html#$", "-"),
+    ("pkg.Thing", "std:label", -1, "api.html#pkg.Thing", "Thing"),
+    ("alias-one", "std:label", -1, "same.html#spot", "Spot"),
+    ("alias-two", "std:label", -1, "same.html#spot", "Spot"),
 ]
 
 
@@ -336,7 +342,7 @@ def gen_doc(rng):
     for key in rng.sample(["k1", "k2", "lib"], rng.randint(1, 2)):
         invs[key] = [list(r) for r in rng.sample(DOC_ROWS, rng.randint(2, len(DOC_ROWS)))]
     links = []
-    targets = ["mod.func", "mod.*", "*", "my-label", "nothing", "star\\*name", "star*", "mod.Class*", "*.meth", "index", "MOD.FUNC", "mod.func\\"]
+    targets = ["mod.func", "mod.*", "*", "my-label", "nothing", "star\\*name", "star*", "mod.Class*", "*.meth", "index", "MOD.FUNC", "mod.func\\", "pkg.Thing", "pkg.*", "alias-*", "alias-one"]
     for _ in range(rng.randint(2, 6)):
         r = rng.random()
         links.append(
